@@ -365,6 +365,10 @@ def b_stack_grid(P, kind="Extruded", nx=2, ny=2, rep=2):
         st = cb.ExtrudedStack(base, P.v([0.2, 0.1, 1.0 * rep]), rep)
     elif kind == "Revolved":
         st = cb.RevolvedStack(base, 0.3 * rep, P.d([1, 0, 0]), P.p([0, -5, 0]), rep)
+    elif kind == "TransformedDefault":
+        # transformations WITHOUT an origin: each tier's end sketch is scaled/rotated about its own centre
+        st = cb.TransformedStack(base, [cb.Translation(P.v([0, 0, 1.0])), cb.Scaling(0.8), cb.Rotation(P.d([0, 0, 1]), 0.25)], rep,
+                                 [cb.Translation(P.v([0, 0, 0.5])), cb.Scaling(0.9), cb.Rotation(P.d([0, 0, 1]), 0.125)])
     else:
         st = cb.TransformedStack(base, [cb.Translation(P.v([0, 0, 1.0])), cb.Rotation(P.d([0, 0, 1]), 0.2, P.p([0, 0, 0]))], rep,
                                  [cb.Translation(P.v([0, 0, 0.5])), cb.Rotation(P.d([0, 0, 1]), 0.1, P.p([0, 0, 0]))])
@@ -379,6 +383,9 @@ def b_stack_sketch(P, kind="Extruded", sketch="FourCoreDisk", rep=2):
         st = cb.ExtrudedStack(base, P.l(1.0 * rep), rep)
     elif kind == "Revolved":
         st = cb.RevolvedStack(base, 0.3 * rep, P.d([1, 0, 0]), P.p([0, -5, 0]), rep)
+    elif kind == "TransformedDefault":
+        st = cb.TransformedStack(base, [cb.Translation(P.v([0, 0, 1.0])), cb.Scaling(0.8), cb.Rotation(P.d([0, 0, 1]), 0.25)], rep,
+                                 [cb.Translation(P.v([0, 0, 0.5])), cb.Scaling(0.9), cb.Rotation(P.d([0, 0, 1]), 0.125)])
     else:
         st = cb.TransformedStack(base, [cb.Translation(P.v([0, 0, 1.0])), cb.Rotation(P.d([0, 0, 1]), 0.2, P.p([0, 0, 0]))], rep,
                                  [cb.Translation(P.v([0, 0, 0.5])), cb.Rotation(P.d([0, 0, 1]), 0.1, P.p([0, 0, 0]))])
@@ -671,6 +678,9 @@ def catalogue(thorough=False):
     add("RevolvedStack:FourCoreDisk:2", "b_stack_sketch", kind="Revolved", sketch="FourCoreDisk", rep=2)
     add("TransformedStack:Oval:3", "b_stack_sketch", kind="Transformed", sketch="Oval", rep=3)
     add("TransformedStack:OneCoreDisk:2", "b_stack_sketch", kind="Transformed", sketch="OneCoreDisk", rep=2)
+    add("TransformedStackDefaultOrigin:Grid:3:2:3", "b_stack_grid", kind="TransformedDefault", nx=3, ny=2, rep=3)
+    add("TransformedStackDefaultOrigin:HalfDisk:3", "b_stack_sketch", kind="TransformedDefault", sketch="HalfDisk", rep=3)
+    add("TransformedStackDefaultOrigin:QuarterDisk:2", "b_stack_sketch", kind="TransformedDefault", sketch="QuarterDisk", rep=2)
     add("LJoint", "b_joint", kind="L")
     add("TJoint", "b_joint", kind="T")
     for n in range(3, 9):
